@@ -50,11 +50,12 @@ func main() {
 		Race:  true,
 		Rule: "simulator half: many short histories (<=48 operations) of 2-16 client goroutines against one Interpreter behind httptest.NewServer, request classes cacheable/pass/error/restart/rate-counter/penalty-box over 2-5 colliding keys, " +
 			"each request carrying a unique marker that the VCL threads through every stage; origin jitter 0-3 ms; GOMAXPROCS in {1,2,4,16}; built with the race detector. Oracles: zero race reports with a falco frame; isolation (every marker seen in a reply is the request's own, flow and restart count are those of its class); " +
-			"linearizability of the recorded call/return history (porcupine) against a sequential cache model per key (MISS stores, HIT returns hits+1), a fetch-and-add rate counter and a penalty-box set. " +
+			"linearizability of the recorded call/return history (porcupine) against a sequential cache model per key (MISS stores, HIT returns hits+1), a fetch-and-add rate counter, per-client fetch-and-add counters with request-supplied increments, and a penalty-box set; further isolation oracles: every hit adds its marker to ITS copy of the cached object (a reply shows no other hitter's marker), a header set to the empty string by some requests reads as set only for those, and a request that another falco node forwarded (Fastly-FF) gets the status it gets when sent alone. " +
 			"plugin half: 2-4 real plugin executables per statement, each returning unique diagnostic ids after 0-5 ms; multiset of ids in Linter.Errors must equal the configured one (exactly-once), under the race detector. " +
 			"non-trivial = history with >=2 operations overlapping in time on the same key, or a lint with >=2 plugins on one statement; distinct by hash of the recorded history",
 		Assumptions: []string{
 			"a porcupine timeout (60 s per history) or a transport-level client error is inconclusive, not a violation",
+			"a lint in which the linter itself reports a plugin command failure (a plugin process died or hit falco's 5 s plugin timeout) is inconclusive for lost diagnostics",
 			"TTL 3600 s and a 60 s rate window against histories of < 2 s: no time-based decision",
 			"only schedules that the Go scheduler produced in these runs are covered",
 		},
@@ -109,6 +110,7 @@ func workerInit() {
 func program() string {
 	return fmt.Sprintf(`backend b { .host = %q; .port = %q; }
 ratecounter rc {}
+ratecounter rc2 {}
 penaltybox pb {}
 sub vcl_recv {
 #FASTLY RECV
@@ -123,6 +125,12 @@ sub vcl_recv {
     log "bucket:" ratecounter.rc.bucket.60s;
     return(pass);
   }
+  if (req.url ~ "^/rk") {
+    # per-client counters with different increments (key and delta from the request)
+    set var.n = ratelimit.ratecounter_increment(rc2, req.http.X-K, std.atoi(req.http.X-Delta));
+    log "rk:" var.n;
+    return(pass);
+  }
   if (req.url ~ "^/pbadd") { ratelimit.penaltybox_add(pb, req.http.X-K, 10m); log "pb:added"; return(pass); }
   if (req.url ~ "^/pbhas") { log "pb:" if(ratelimit.penaltybox_has(pb, req.http.X-K), "1", "0"); return(pass); }
   if (req.url ~ "^/pass") { return(pass); }
@@ -135,6 +143,9 @@ sub vcl_hash {
 sub vcl_hit {
 #FASTLY HIT
   log "hit:" req.http.X-M;
+  # the object of this request: what it adds here belongs to this request's copy
+  add obj.http.X-Hit-M = req.http.X-M;
+  log "hitobj:" obj.http.X-Hit-M;
 }
 sub vcl_miss {
 #FASTLY MISS
@@ -160,6 +171,10 @@ sub vcl_deliver {
 #FASTLY DELIVER
   set resp.http.X-Resp-M = req.http.X-M;
   log "deliver:" req.http.X-M;
+  log "hitm:" resp.http.X-Hit-M;
+  # a header that is set to the empty string by some requests only
+  if (req.http.X-Flagset) { set resp.http.X-Flag = ""; }
+  log "flag:" if(resp.http.X-Flag, "1", "0") "[" resp.http.X-Flag "]";
 }
 sub vcl_log {
 #FASTLY LOG
@@ -169,9 +184,11 @@ sub vcl_log {
 }
 
 type opIn struct {
-	Class  string `json:"class"`
-	Key    string `json:"key"`
-	Marker string `json:"marker"`
+	Class   string `json:"class"`
+	Key     string `json:"key"`
+	Marker  string `json:"marker"`
+	Delta   int    `json:"delta,omitempty"`
+	Flagset bool   `json:"flagset,omitempty"`
 }
 type opOut struct {
 	Status   int      `json:"status"`
@@ -180,6 +197,8 @@ type opOut struct {
 	Hits     string   `json:"hits"`
 	Bucket   string   `json:"bucket,omitempty"`
 	PB       string   `json:"pb,omitempty"`
+	RK       string   `json:"rk,omitempty"`
+	Flag     string   `json:"flag,omitempty"`
 	Restarts int      `json:"restarts"`
 	Markers  []string `json:"markers,omitempty"` // foreign markers seen
 	Err      string   `json:"err,omitempty"`
@@ -220,7 +239,19 @@ func runHistory(oc *fw.Outcome, hc hcase) {
 	var mu sync.Mutex
 	var ops []recOp
 	var wg sync.WaitGroup
-	classes := []string{"cache", "cache", "cache", "pass", "err", "restart", "rate", "pbadd", "pbhas"}
+	classes := []string{"cache", "cache", "cache", "pass", "err", "restart", "rate", "pbadd", "pbhas", "rk", "rk", "ff"}
+	// a request that another falco simulator forwarded: what it gets alone is what it gets in a crowd
+	ffAlone := ""
+	{
+		req, _ := http.NewRequest("GET", srv.URL+"/ff/alone", nil)
+		req.Header.Set("X-M", "c999-0-0")
+		req.Header.Set("Fastly-FF", "x!FALCO!cache-localsimulator")
+		if resp, err := http.DefaultClient.Do(req); err == nil {
+			io.Copy(io.Discard, resp.Body)
+			resp.Body.Close()
+			ffAlone = fmt.Sprint(resp.StatusCode)
+		}
+	}
 	for c := 0; c < hc.Clients; c++ {
 		wg.Add(1)
 		go func(c int) {
@@ -237,6 +268,18 @@ func runHistory(oc *fw.Outcome, hc hcase) {
 				req.Header.Set("X-M", in.Marker)
 				req.Header.Set("X-K", in.Key)
 				req.Header.Set("X-Delay-Us", fmt.Sprint(r.Intn(3000)))
+				switch in.Class {
+				case "rk":
+					in.Delta = 1 + r.Intn(3)
+					req.Header.Set("X-Delta", fmt.Sprint(in.Delta))
+				case "cache":
+					if r.Intn(4) == 0 {
+						in.Flagset = true
+						req.Header.Set("X-Flagset", "1")
+					}
+				case "ff":
+					req.Header.Set("Fastly-FF", "x!FALCO!cache-localsimulator")
+				}
 				op := recOp{Client: c, In: in}
 				op.Call = int64(time.Since(start))
 				resp, err := client.Do(req)
@@ -251,7 +294,12 @@ func runHistory(oc *fw.Outcome, hc hcase) {
 						op.Out.Err = rerr.Error()
 					} else {
 						op.Complete = true
-						parseReply(&op, body)
+						if in.Class == "ff" {
+							// judged by its status only (the reply of a rejected request is no process document)
+							op.Out.Flow = "status:" + fmt.Sprint(resp.StatusCode) + "/alone:" + ffAlone
+						} else {
+							parseReply(&op, body)
+						}
 					}
 				}
 				mu.Lock()
@@ -302,6 +350,12 @@ func parseReply(op *recOp, body []byte) {
 		if strings.HasPrefix(l.Message, "pb:") {
 			op.Out.PB = strings.TrimPrefix(l.Message, "pb:")
 		}
+		if strings.HasPrefix(l.Message, "rk:") {
+			op.Out.RK = strings.TrimPrefix(l.Message, "rk:")
+		}
+		if strings.HasPrefix(l.Message, "flag:") {
+			op.Out.Flag = strings.TrimPrefix(l.Message, "flag:")
+		}
 	}
 	for k, v := range rp.ClientResponse.Headers {
 		if !strings.HasSuffix(k, "-m") {
@@ -334,6 +388,7 @@ var flowsOf = map[string][]string{
 	"rate":    {"recv>hash>pass>fetch>deliver>log"},
 	"pbadd":   {"recv>hash>pass>fetch>deliver>log"},
 	"pbhas":   {"recv>hash>pass>fetch>deliver>log"},
+	"rk":      {"recv>hash>pass>fetch>deliver>log"},
 }
 
 type cacheState struct {
@@ -403,6 +458,24 @@ func checkHistory(oc *fw.Outcome, hc hcase, ops []recOp, end int64) {
 		if len(op.Out.Markers) > 0 {
 			oc.Violate("iso:marker/"+op.In.Class, fmt.Sprintf("request %s (%s) saw foreign markers %v in its logs/headers", op.In.Marker, op.In.Class, op.Out.Markers), detail(nil))
 		}
+		if op.In.Class == "ff" {
+			// "status:N/alone:M": the forwarded request gets what it got alone
+			parts := strings.SplitN(strings.TrimPrefix(op.Out.Flow, "status:"), "/alone:", 2)
+			if len(parts) == 2 && parts[1] != "" && parts[0] != parts[1] {
+				oc.Violate("iso:forwarded-request", fmt.Sprintf("a request with Fastly-FF naming a falco node got status %s in the concurrent history, %s when sent alone", parts[0], parts[1]), detail(nil))
+			}
+			oc.Tag("forwarded-request:status=" + parts[0])
+			continue
+		}
+		if op.In.Class == "cache" {
+			want := "0[(null)]"
+			if op.In.Flagset {
+				want = "1[]"
+			}
+			if op.Out.Flag != want {
+				oc.Violate("iso:empty-header-flag", fmt.Sprintf("request %s (X-Flagset=%v) logs flag:%s, expected flag:%s: whether a header is set to the empty string belongs to the request", op.In.Marker, op.In.Flagset, op.Out.Flag, want), detail(nil))
+			}
+		}
 		okFlow := false
 		for _, f := range flowsOf[op.In.Class] {
 			okFlow = okFlow || f == op.Out.Flow
@@ -428,7 +501,7 @@ func checkHistory(oc *fw.Outcome, hc hcase, ops []recOp, end int64) {
 	var pops []porcupine.Operation
 	for _, op := range ops {
 		switch op.In.Class {
-		case "cache", "rate", "pbadd", "pbhas":
+		case "cache", "rate", "pbadd", "pbhas", "rk":
 			pops = append(pops, porcupine.Operation{ClientId: op.Client, Input: op.In, Output: op.Out, Call: op.Call, Return: op.Return})
 		}
 	}
@@ -441,6 +514,8 @@ func checkHistory(oc *fw.Outcome, hc hcase, ops []recOp, end int64) {
 				switch in.Class {
 				case "rate":
 					k = "rate"
+				case "rk":
+					k = "rk/" + in.Key
 				case "pbadd", "pbhas":
 					k = "pb/" + in.Key
 				}
@@ -463,6 +538,9 @@ func checkHistory(oc *fw.Outcome, hc hcase, ops []recOp, end int64) {
 				return o.XCache == "HIT" && o.Hits == fmt.Sprint(s.Hits+1) && strings.Contains(o.Flow, "hit"), cacheState{Stored: true, Hits: s.Hits + 1}
 			case "rate":
 				return o.Bucket == fmt.Sprint(s.Hits+1), cacheState{Hits: s.Hits + 1}
+			case "rk":
+				// fetch-and-add per client key: the call returns the client's new total
+				return o.RK == fmt.Sprint(s.Hits+i.Delta), cacheState{Hits: s.Hits + i.Delta}
 			case "pbadd":
 				return o.PB == "added", cacheState{Stored: true}
 			case "pbhas":
@@ -551,7 +629,9 @@ func runPlugin(oc *fw.Outcome, hc hcase) {
 		}
 		detail := map[string]any{"case": hc, "vcl": src, "configured": want, "reported": got, "other": other}
 		for k, n := range want {
-			if got[k] < n {
+			// a plugin process that failed or hit falco's 5 s plugin timeout (the linter says so in `other`)
+			// did not return its diagnostics: that run is inconclusive below, not a loss by the linter
+			if got[k] < n && len(other) == 0 {
 				oc.Violate("plugin:lost", fmt.Sprintf("diagnostic %s returned by a plugin is missing from Linter.Errors (repetition %d)", k, rep), detail)
 			}
 			if got[k] > n {
